@@ -124,6 +124,40 @@ func checkC14(c *Ctx, r *Report) {
 					okb = true
 				}
 			}
+			if !okb {
+				// the length is the result of a helper of the package that returns it
+				// only where it established the bounds, and the helper's error was checked
+				if ex, isEx := base.(*ssa.Extract); isEx {
+					if cl, isC := ex.Tuple.(*ssa.Call); isC {
+						if sf := cl.Common().StaticCallee(); sf != nil && sf.Pkg == fn.Pkg && inSuccessRegion(cl, mk) {
+							all, n := true, 0
+							for _, ret := range returnsOf(sf) {
+								if classifyReturn(ret) == RetFailure || ex.Index >= len(ret.Results) {
+									continue
+								}
+								n++
+								rv := unspill(ret.Results[ex.Index])
+								for i := 0; i < 3; i++ {
+									if cv, isCv := rv.(*ssa.Convert); isCv {
+										rv = cv.X
+									}
+								}
+								l2, u2 := boundFacts(ret, rv)
+								s2 := true
+								if bt, isB := rv.Type().Underlying().(*types.Basic); isB && bt.Info()&types.IsUnsigned != 0 {
+									s2 = false
+								}
+								if !(u2 && (l2 || !s2)) {
+									all = false
+								}
+							}
+							if all && n > 0 {
+								okb = true
+							}
+						}
+					}
+				}
+			}
 			r.Check(okb, r2, fn, "make([]byte, n)", mk, "n bounded", fmt.Sprintf("a buffer is allocated with a length taken from the wire without bounds (upper=%v lower=%v signed=%v): a negative length panics, a huge one exhausts memory", up, lo, signed))
 		})
 	}
